@@ -84,8 +84,13 @@ def decide(pid, prop, tier, seed, results, undecided, t0, load_expect, findings)
         missing = [k for k in expect if k not in r.obligations]
         if missing:
             undec.append((r.name, 'obligations recorded on the pinned tree are no longer generated: %s' % ', '.join(missing[:5])))
-        if r.rlimit_hits:
-            undec.append((r.name, 'resource limit hit in %s' % ', '.join(sorted(set(str(h['fn']) for h in r.rlimit_hits)))))
+        # a resource-limit hit in a strict twin whose clauses are all listed findings is reported through the finding, not as undecided
+        def _only_findings(fn):
+            obs = [k for k, o in r.obligations.items() if o['fn'] == fn]
+            return obs and all(any(key[1] == k for key in known_ids) for k in obs)
+        hard = [h for h in r.rlimit_hits if not _only_findings(h['fn'])]
+        if hard:
+            undec.append((r.name, 'resource limit hit in %s' % ', '.join(sorted(set(str(h['fn']) for h in hard)))))
         rawfail = [k for k in r.failed if k.startswith('raw:') or k == 'unattributed']
         if rawfail:
             undec.append((r.name, 'spec-library / lemma text failed (machinery, not /repo code): %s: %s' % (', '.join(rawfail), r.failed[rawfail[0]][0]['message'])))
@@ -98,6 +103,12 @@ def decide(pid, prop, tier, seed, results, undecided, t0, load_expect, findings)
             if k not in r.failed:
                 n_dis += 1
                 continue
+            if (pid, k) in known_ids:
+                known.append((k, known_ids[(pid, k)]))
+                n_obl -= 1   # a listed finding is reported, not counted as an obligation of the proof
+                continue
+            if all(d.get('rlimit') for d in r.failed[k]):
+                continue   # undecided (reported once per unit as a resource-limit hit), never a violation
             if (pid, k) in known_ids:
                 known.append((k, known_ids[(pid, k)]))
                 n_obl -= 1   # a listed finding is reported, not counted as an obligation of the proof
